@@ -261,7 +261,9 @@ func c02Gaps(w *mon.W, idx int) {
 	var cov c02Cov
 	if c02Check(w, words, &pos, &cov) {
 		cov.flush(w)
-		w.Sample(func() interface{} { return mon.D{"ones": n, "nwords": nw, "gap_mode": mode, "first_positions": ps[:min(8, len(ps))]} })
+		w.Sample(func() interface{} {
+			return mon.D{"ones": n, "nwords": nw, "gap_mode": mode, "first_positions": ps[:min(8, len(ps))]}
+		})
 	}
 }
 
